@@ -18,8 +18,10 @@ NRuns(c) == Len(c.hst)
 RunSum(c, p, t, ii, k) == SumTo([z \in 1..(c.hsp[k] - c.hst[k]) |-> c.geno[p][ii][c.hst[k] + z] * c.u[c.hst[k] + z][t]], c.hsp[k] - c.hst[k])
 TotalVal(c, p, t, ii) == SumTo([l \in 1..NMark(c.lay) |-> c.geno[p][ii][l] * c.u[l][t]], NMark(c.lay))
 MaxOf(S) == CHOOSE x \in S : \A y \in S : y <= x
-BestBlock(c, S, b, t) == MaxOf({c.hmat[p][ii + 1][b][t] : p \in 1..2, ii \in S})
-Ohv(c, S, t) == 2 * SumTo([b \in 1..c.B |-> BestBlock(c, S, b, t)], c.B)
+\* ploidy = number of chromosome copies (phase planes) of the genotype matrix
+NPhase(c) == Len(c.geno)
+BestBlock(c, S, b, t) == MaxOf({c.hmat[p][ii + 1][b][t] : p \in 1..NPhase(c), ii \in S})
+Ohv(c, S, t) == NPhase(c) * SumTo([b \in 1..c.B |-> BestBlock(c, S, b, t)], c.B)
 
 Verdict(c) ==
     LET L == c.lay
@@ -41,11 +43,12 @@ Verdict(c) ==
        ELSE IF c.hst[1] # 0 \/ c.hsp[NRuns(c)] # M \/ \E k \in 1..(NRuns(c) - 1) : c.hsp[k] # c.hst[k + 1] \/ c.hbin[c.hsp[k]] = c.hbin[c.hsp[k] + 1]
             THEN "bounds-are-not-the-runs-of-the-labels"
        ELSE IF ~c.hfin THEN "block-values-not-finite"
-       ELSE IF \E p \in 1..2 : \E ii \in 1..N : \E t \in 1..NT : \E k \in 1..NRuns(c) : c.hmat[p][ii][k][t] # RunSum(c, p, t, ii, k)
+       ELSE IF Len(c.hmat) # NPhase(c) THEN "block-values-for-a-different-number-of-chromosome-copies"
+       ELSE IF \E p \in 1..NPhase(c) : \E ii \in 1..N : \E t \in 1..NT : \E k \in 1..NRuns(c) : c.hmat[p][ii][k][t] # RunSum(c, p, t, ii, k)
             THEN "block-value"
-       ELSE IF \E p \in 1..2 : \E ii \in 1..N : \E t \in 1..NT : \E k \in (NRuns(c) + 1)..c.B : c.hmat[p][ii][k][t] # 0
+       ELSE IF \E p \in 1..NPhase(c) : \E ii \in 1..N : \E t \in 1..NT : \E k \in (NRuns(c) + 1)..c.B : c.hmat[p][ii][k][t] # 0
             THEN "surplus-block-not-zero"
-       ELSE IF \E p \in 1..2 : \E ii \in 1..N : \E t \in 1..NT :
+       ELSE IF \E p \in 1..NPhase(c) : \E ii \in 1..N : \E t \in 1..NT :
                  SumTo([k \in 1..c.B |-> c.hmat[p][ii][k][t]], c.B) # TotalVal(c, p, t, ii) THEN "block-values-do-not-sum-to-the-copy-value"
        ELSE IF \E s \in 1..Len(c.crosses) : \E t \in 1..NT : c.ohv[s][t] # Ohv(c, ToSet(c.crosses[s]), t) THEN "ohv-value"
        ELSE IF \E s \in 1..Len(c.opvsets) : \E t \in 1..NT : c.opv[s][t] # -Ohv(c, ToSet(c.opvsets[s]), t) THEN "opv-value"
